@@ -20,6 +20,7 @@ unfolding in the `cog11_*` conjunctions.
 import EPV.Gen.Cog11D
 import EPV.Spec.Euler1D
 import EPV.Lemmas.Euler1D
+import EPV.Lemmas.HydroRobust
 import EPV.Tactics
 
 set_option linter.all false
@@ -38,8 +39,8 @@ noncomputable def cog11_alpha (p : Cog11.P) : ℝ :=
 theorem cog11_mass_L1 (p : Cog11.P) (r t : ℝ) (hr : 0 < r) (ht : 0 < t) :
     massRes (Cog11.L1.density p) (Cog11.L1.velocity p) (p.geometry - 1) r t = 0 := by
   unfold massRes dr dt
-  rw [(Cog11.L1.density_hasDerivAt_t p r t ht).deriv, (Cog11.L1.density_hasDerivAt_r p r t hr).deriv,
-    (Cog11.L1.velocity_hasDerivAt_r p r t).deriv]
+  epv_hydro_rw_derivs [Cog11.L1.density_hasDerivAt_t p r t, Cog11.L1.density_hasDerivAt_r p r t,
+    Cog11.L1.velocity_hasDerivAt_r p r t]
   simp only [epv_deriv, epv_leaf]
   field_simp
   ring
@@ -47,8 +48,8 @@ theorem cog11_mass_L1 (p : Cog11.P) (r t : ℝ) (hr : 0 < r) (ht : 0 < t) :
 theorem cog11_momentum_L1 (p : Cog11.P) (r t : ℝ) (hr : 0 < r) (ht : 0 < t) (hρ : p.rho0 ≠ 0) :
     momResT (Cog11.L1.density p) (Cog11.L1.velocity p) (Cog11.L1.temperature p) p.Gamma r t = 0 := by
   unfold momResT dr dt
-  rw [(Cog11.L1.velocity_hasDerivAt_t p r t ht.ne').deriv, (Cog11.L1.velocity_hasDerivAt_r p r t).deriv,
-    (Cog11.L1.density_hasDerivAt_r p r t hr).deriv, (Cog11.L1.temperature_hasDerivAt_r p r t hr).deriv]
+  epv_hydro_rw_derivs [Cog11.L1.velocity_hasDerivAt_t p r t, Cog11.L1.velocity_hasDerivAt_r p r t,
+    Cog11.L1.density_hasDerivAt_r p r t, Cog11.L1.temperature_hasDerivAt_r p r t]
   simp only [epv_deriv, epv_leaf]
   have h1 := Real.rpow_pos_of_pos hr (((p.gamma - (1 : ℝ)) * ((p.geometry - (1 : ℝ)) + (1 : ℝ))) - (2 : ℝ))
   have h2 := Real.rpow_pos_of_pos ht (((1 : ℝ) - (p.geometry - (1 : ℝ))) - ((p.gamma - (1 : ℝ)) * ((p.geometry - (1 : ℝ)) + (1 : ℝ))))
@@ -58,8 +59,8 @@ theorem cog11_momentum_L1 (p : Cog11.P) (r t : ℝ) (hr : 0 < r) (ht : 0 < t) (h
 theorem cog11_energy_hydro_L1 (p : Cog11.P) (r t : ℝ) (hr : 0 < r) (ht : 0 < t) (hγ : p.gamma - 1 ≠ 0) :
     energyHydroT (Cog11.L1.velocity p) (Cog11.L1.temperature p) p.Gamma p.gamma (p.geometry - 1) r t = 0 := by
   unfold energyHydroT dr dt
-  rw [(Cog11.L1.temperature_hasDerivAt_t p r t (pow_ne_zero 2 ht.ne')).deriv, (Cog11.L1.velocity_hasDerivAt_r p r t).deriv,
-    (Cog11.L1.temperature_hasDerivAt_r p r t hr).deriv]
+  epv_hydro_rw_derivs [Cog11.L1.temperature_hasDerivAt_t p r t, Cog11.L1.velocity_hasDerivAt_r p r t,
+    Cog11.L1.temperature_hasDerivAt_r p r t]
   simp only [epv_deriv, epv_leaf]
   field_simp
   ring
